@@ -113,6 +113,16 @@ class FakeProcessTransport(object):
         pass
 
 
+class FakeCtlTransport(object):
+    """the control connection's transport (closing it is not a way to end the process)"""
+
+    def __init__(self):
+        self.lost = 0
+
+    def loseConnection(self):
+        self.lost += 1
+
+
 class FakeControl(object):
     """the launched Tor's control connection as TorProcessProtocol sees it"""
 
@@ -123,6 +133,7 @@ class FakeControl(object):
         self.listeners = []
         self.is_owned = None
         self.listener_errors = []
+        self.transport = FakeCtlTransport()
 
     def add_event_listener(self, name, cb):
         self.listeners.append((name, cb))
@@ -183,7 +194,11 @@ def _run(order, with_timeout, with_config=False):
     try:
         for i, e in enumerate(order):
             if e == OUT_A:
-                pp.outReceived(b'Oct 03 12:00:00.000 [notice] Bootstrapped 0%: Starting\n')
+                # stdout chatter; at odd positions it is Tor's own "100%" line, which is not the control-port report the statement asks for
+                if i % 2:
+                    pp.outReceived(b'Oct 03 12:00:09.000 [notice] Bootstrapped 100%: Done\n')
+                else:
+                    pp.outReceived(b'Oct 03 12:00:00.000 [notice] Bootstrapped 0%: Starting\n')
             elif e == OUT_L:
                 pp.outReceived(LISTENER_LINE)
             elif e == OUT_LS:
